@@ -17,12 +17,14 @@ package consensus
 import (
 	"bytes"
 	"fmt"
+	"math/big"
 	"sort"
 	"strings"
 	"sync"
 	"sync/atomic"
 	"testing"
 
+	"github.com/icon-project/goloop/common"
 	"github.com/icon-project/goloop/common/codec"
 	"github.com/icon-project/goloop/common/crypto"
 	"github.com/icon-project/goloop/common/db"
@@ -42,11 +44,22 @@ type c06Desc struct {
 	NID    int   `json:"nid"`    // 0 (unspecified), 1, 2
 	Dec    int   `json:"dec"`    // votes: 0 block A, 1 block B, 2 nil; proposals: part-set A, B, C
 	TS     int   `json:"ts"`     // votes: timestamp t1/t2; proposals: POLRound -1/0
+	// Enc selects the wire form of the SAME signed content:
+	//  0 object built and signed in-process
+	//  1 signature with the spare "compressed key" bit of V flipped (V 0/1 <-> 4/5), decoded from the wire
+	//  2 malleated signature (r, n-s, V^1), decoded from the wire
+	//  3 votes only: re-encoded with an explicit empty NTS-vote list, decoded from the wire
+	//  4 plain marshal -> decode
+	Enc int `json:"enc,omitempty"`
 }
 
 func (d c06Desc) String() string {
 	k := []string{"prevote", "precommit", "proposal"}[d.Kind]
-	return fmt.Sprintf("{%s signer=k%d h=%d r=%d nid=%d dec=%d ts=%d}", k, d.Signer+1, d.Height, d.Round, d.NID, d.Dec, d.TS)
+	e := ""
+	if d.Enc != 0 {
+		e = " enc=" + []string{"", "V-alias", "high-S", "empty-NTS-list", "re-decoded"}[d.Enc]
+	}
+	return fmt.Sprintf("{%s signer=k%d h=%d r=%d nid=%d dec=%d ts=%d%s}", k, d.Signer+1, d.Height, d.Round, d.NID, d.Dec, d.TS, e)
 }
 
 type c06Msg struct {
@@ -83,7 +96,113 @@ func c06InitWallets() {
 	}
 }
 
+var c06CurveN, _ = new(big.Int).SetString("FFFFFFFFFFFFFFFFFFFFFFFFFFFFFFFEBAAEDCE6AF48A03BBFD25E8CD0364141", 16)
+
+// c06SigVariant returns another encoding of the same signature (nil if enc keeps it).
+func c06SigVariant(sig common.Signature, enc int) common.Signature {
+	rsv, err := sig.Signature.SerializeRSV()
+	if err != nil {
+		panic(err)
+	}
+	rsv = append([]byte(nil), rsv...)
+	switch enc {
+	case 1:
+		rsv[64] ^= 4
+	case 2:
+		sv := new(big.Int).Sub(c06CurveN, new(big.Int).SetBytes(rsv[32:64]))
+		sb := sv.Bytes()
+		for i := 32; i < 64; i++ {
+			rsv[i] = 0
+		}
+		copy(rsv[64-len(sb):64], sb)
+		rsv[64] ^= 1
+	default:
+		return sig
+	}
+	s2, err := crypto.ParseSignature(rsv)
+	if err != nil {
+		panic(err)
+	}
+	return common.Signature{Signature: s2}
+}
+
+// c06Build builds the message; it returns nil when the requested encoding is
+// not accepted by the real decoder / signature recovery (then the variant does
+// not exist for goloop and is left out of the universe).
 func c06Build(d c06Desc) *c06Msg {
+	canon := d
+	canon.Enc = 0
+	m := c06BuildCanonical(canon)
+	if d.Enc == 0 {
+		return m
+	}
+	if d.Enc == 3 && d.Kind == 2 {
+		return nil
+	}
+	var bs []byte
+	var tn string
+	if d.Kind == 2 {
+		tn = module.DSTProposal
+		p2 := NewProposalMessage()
+		p2.proposal = m.prop.proposal
+		p2.Signature = c06SigVariant(m.prop.Signature, d.Enc)
+		bs = msgCodec.MustMarshalToBytes(p2)
+	} else {
+		tn = module.DSTVote
+		v := m.vote
+		type ntsVote struct {
+			NetworkTypeID          int64
+			NetworkTypeSectionHash []byte
+			NTSDProofPart          []byte
+		}
+		type wire7 struct {
+			Signature common.Signature
+			Height    int64
+			Round     int32
+			Type      VoteType
+			BlockID   []byte
+			PSID      *PartSetIDAndAppData
+			Timestamp int64
+		}
+		w := wire7{c06SigVariant(v.Signature, d.Enc), v.Height, v.Round, v.Type, v.BlockID, v.BlockPartSetIDAndNTSVoteCount, v.Timestamp}
+		if d.Enc == 3 {
+			bs = msgCodec.MustMarshalToBytes(&struct {
+				wire7
+				NTSVotes []ntsVote
+			}{w, []ntsVote{}})
+			if bytes.Equal(bs, msgCodec.MustMarshalToBytes(v)) {
+				panic("harness: explicit empty NTS list does not change the encoding")
+			}
+		} else {
+			bs = msgCodec.MustMarshalToBytes(&w)
+		}
+	}
+	if d.Enc != 4 && bytes.Equal(bs, m.dsd.Bytes()) {
+		panic(fmt.Sprintf("harness: %v has the canonical wire form", d))
+	}
+	dsd, err := DecodeDoubleSignData(tn, bs)
+	if err != nil {
+		return nil // goloop does not accept this wire form at all
+	}
+	r := &c06Msg{d: d, dsd: dsd, sb: m.sb}
+	var sameHash bool
+	if d.Kind == 2 {
+		r.prop = dsd.(*dsProposal).msg
+		sameHash = bytes.Equal(r.prop.hash(), m.prop.hash()) && bytes.Equal(r.prop.proposal.bytes(), m.sb)
+		r.prop.address()
+	} else {
+		r.vote = dsd.(*dsVote).msg
+		sameHash = bytes.Equal(r.vote.hash(), m.vote.hash()) && bytes.Equal(r.vote._byteser.bytes(), m.sb)
+		r.vote.address()
+		r.vote.RoundDecisionDigest()
+	}
+	if !sameHash || !bytes.Equal(dsd.Signer(), m.dsd.Signer()) {
+		return nil // not the same signed content by the same signer for goloop
+	}
+	return r
+}
+
+func c06BuildCanonical(d c06Desc) *c06Msg {
 	m := &c06Msg{d: d}
 	fill := func(b byte) []byte { return bytes.Repeat([]byte{b}, 32) }
 	var err error
@@ -147,7 +266,7 @@ func c06Universe(nSigners, nHeights, nRounds, nNIDs int) []c06Desc {
 					for nid := 0; nid < nNIDs; nid++ {
 						for dec := 0; dec < 3; dec++ {
 							for ts := 0; ts < 2; ts++ {
-								ds = append(ds, c06Desc{s, h, r, k, nid, dec, ts})
+								ds = append(ds, c06Desc{s, h, r, k, nid, dec, ts, 0})
 							}
 						}
 					}
@@ -176,6 +295,7 @@ func c06Genuine(a, b c06Desc) (failed []string) {
 	if !(a.NID == b.NID || a.NID == 0 || b.NID == 0) {
 		failed = append(failed, "nid")
 	}
+	a.Enc, b.Enc = 0, 0 // the encoding is not part of the signed content
 	if a == b {
 		failed = append(failed, "identical")
 	}
@@ -278,6 +398,9 @@ func (c *c06Checker) verdict(point string, a, b *c06Msg, accepted bool, extra st
 		sig := fmt.Sprintf("evidence-accepted-despite-%s-mismatch:%s@%s", strings.Join(failed, "+"), c06Family(a.d, b.d), point)
 		if len(failed) == 1 && failed[0] == "identical" {
 			sig = fmt.Sprintf("evidence-accepted-for-identical-messages:%s@%s", c06Family(a.d, b.d), point)
+			if a.d.Enc != b.d.Enc {
+				sig = fmt.Sprintf("evidence-accepted-for-one-signed-content-in-two-encodings:%s@%s", c06Family(a.d, b.d), point)
+			}
 		} else if len(failed) == 1 && failed[0] == "nid" {
 			sig = fmt.Sprintf("evidence-accepted-despite-different-nonzero-nids:%s@%s", c06Family(a.d, b.d), point)
 		}
@@ -424,6 +547,9 @@ func (c *c06Checker) triple(ms [3]*c06Msg) {
 				sig = fmt.Sprintf("evidence-accepted-despite-different-nonzero-nids:%s@%s", c06Family(prev.d, ms[k].d), c06PLog3)
 			} else if len(failed) == 1 && failed[0] == "identical" {
 				sig = fmt.Sprintf("evidence-accepted-for-identical-messages:%s@%s", c06Family(prev.d, ms[k].d), c06PLog3)
+				if prev.d.Enc != ms[k].d.Enc {
+					sig = fmt.Sprintf("evidence-accepted-for-one-signed-content-in-two-encodings:%s@%s", c06Family(prev.d, ms[k].d), c06PLog3)
+				}
 			}
 			c.r.Violation(sig, fmt.Sprintf("log fed %v,%v,%v returned at step %d the pair %v / %v which fails %v", ms[0].d, ms[1].d, ms[2].d, k, prev.d, ms[k].d, failed), cs)
 		}
@@ -432,7 +558,7 @@ func (c *c06Checker) triple(ms [3]*c06Msg) {
 
 func TestVerifC06(t *testing.T) {
 	r := ev.Start(t, "C06", "exploration")
-	r.Rule("all ordered pairs (first from copy 1, second from an independently built copy 2) of the universe signer{k1,k2} x height{1,2} x round{0,1} x kind{prevote,precommit,proposal} x nid{0,1,2} x decision{A,B,nil|C} x {timestamp t1,t2 | POLRound -1,0} = 432 messages (thorough adds the extended universe signer{k1,k2,k3} x height{1,2,3} x round{0,1,2} x nid{0,1,2,3} = 1944 messages), at IsConflictWith, a fresh dsmLog, and a DSR transaction pre-validated on a world context (direct and re-parsed); plus all ordered triples inside each (signer k1, height 1, round 0, kind) group through one dsmLog; non-trivial = pair that is a genuine conflict or fails exactly one clause of the statement")
+	r.Rule("all ordered pairs (first from copy 1, second from an independently built copy 2) of the universe signer{k1,k2} x height{1,2} x round{0,1} x kind{prevote,precommit,proposal} x nid{0,1,2} x decision{A,B,nil|C} x {timestamp t1,t2 | POLRound -1,0} = 432 messages (thorough adds the extended universe signer{k1,k2,k3} x height{1,2,3} x round{0,1,2} x nid{0,1,2,3} = 1944 messages), at IsConflictWith, a fresh dsmLog, and a DSR transaction pre-validated on a world context (direct and re-parsed); plus an encoding universe in which every signed content also appears in its other wire forms (signature V alias 0/1<->4/5, malleated (r,n-s) signature, votes with an explicit empty NTS-vote list, plain re-decode) which by the statement never differ in signed content; plus all ordered triples inside each (signer k1, height 1, round 0, kind) group through one dsmLog; non-trivial = pair that is a genuine conflict or fails exactly one clause of the statement")
 	r.Assume("both signers are validators of the evidence context (the validator-membership test is not the subject)",
 		"messages carry valid signatures (evidence objects cannot be built from unsigned messages: newDoubleSignDataWith*Message verifies)",
 		"oracle: evidence <=> same signer, height, round, kind, (nid equal or one of them 0), signed bytes differ")
@@ -454,6 +580,7 @@ func TestVerifC06(t *testing.T) {
 	var classes sync.Map
 	var stop int32
 	var universes []map[string]interface{}
+	var unsupported sync.Map
 	// runPairs enumerates all ordered pairs of the universe; the two transaction
 	// points run on the pairs selected by txSel.
 	runPairs := func(name string, descs []c06Desc, txSel func(a c06Desc) bool) (copy1 []*c06Msg) {
@@ -463,11 +590,27 @@ func TestVerifC06(t *testing.T) {
 			copy1[i] = c06Build(descs[i])
 			copy2[i] = c06Build(descs[i])
 		})
+		{ // drop the encodings goloop does not accept
+			var d2 []c06Desc
+			var c1, c2 []*c06Msg
+			for i := range descs {
+				if copy1[i] == nil || copy2[i] == nil {
+					unsupported.Store([]string{"", "V-alias", "high-S", "empty-NTS-list", "re-decoded"}[descs[i].Enc], true)
+					continue
+				}
+				d2, c1, c2 = append(d2, descs[i]), append(c1, copy1[i]), append(c2, copy2[i])
+			}
+			descs, copy1, copy2 = d2, c1, c2
+		}
+		encCount := map[int]int{}
+		for _, d := range descs {
+			encCount[d.Enc]++
+		}
 		// harness sanity: descriptor equality <=> signed-bytes equality
 		sbSeen := map[string]int{}
 		for i, m := range copy1 {
 			// the signer is not part of the signed bytes; everything else is
-			k := fmt.Sprintf("%d/%x", descs[i].Signer, m.sb)
+			k := fmt.Sprintf("%d/%d/%x", descs[i].Signer, descs[i].Enc, m.sb)
 			if j, dup := sbSeen[k]; dup {
 				r.Sanity(false, "descriptors %v and %v have the same signed bytes", descs[i], descs[j])
 			}
@@ -504,7 +647,7 @@ func TestVerifC06(t *testing.T) {
 				atomic.AddInt64(cnt.(*int64), 1)
 			}
 		})
-		universes = append(universes, map[string]interface{}{"name": name, "messages": n, "ordered_pairs": n * n, "pairs_through_tx_points": txPairs, "complete": atomic.LoadInt32(&stop) == 0})
+		universes = append(universes, map[string]interface{}{"name": name, "messages": n, "messages_per_encoding": encCount, "ordered_pairs": n * n, "pairs_through_tx_points": txPairs, "complete": atomic.LoadInt32(&stop) == 0})
 		return copy1
 	}
 	// base universe. quick: tx points on the pairs whose first message is signed
@@ -512,6 +655,28 @@ func TestVerifC06(t *testing.T) {
 	txAll := r.Thorough()
 	descs := c06Universe(2, 2, 2, 3)
 	copy1 := runPairs("base", descs, func(a c06Desc) bool { return txAll || (a.Signer == 0 && a.Height == 1) })
+	// encoding universe: every wire form of each signed content. quick: a slice
+	// of the base universe (height 1, round 0, nid{0,1}, two decisions), all
+	// points on all pairs; thorough: the whole base universe x encodings, tx
+	// points on the pairs whose first message is (k1, height 1).
+	var encDescs []c06Desc
+	for _, d := range descs {
+		if r.Quick() && !(d.Height == 1 && d.Round == 0 && d.NID < 2 && d.Dec < 2) {
+			continue
+		}
+		for enc := 0; enc <= 4; enc++ {
+			if enc == 3 && d.Kind == 2 {
+				continue // proposals have no optional list element
+			}
+			e := d
+			e.Enc = enc
+			encDescs = append(encDescs, e)
+		}
+	}
+	var encMsgs []*c06Msg
+	if atomic.LoadInt32(&stop) == 0 {
+		encMsgs = runPairs("encodings", encDescs, func(a c06Desc) bool { return r.Quick() || (a.Signer == 0 && a.Height == 1) })
+	}
 	if r.Thorough() && atomic.LoadInt32(&stop) == 0 {
 		// extended universe: 3 signers x 3 heights x 3 rounds x 4 nids; tx points on
 		// the slice whose first message is (k1, height 1)
@@ -522,12 +687,12 @@ func TestVerifC06(t *testing.T) {
 
 	// triples inside one key group
 	var triples int64
-	if complete {
+	runTriples := func(msgs []*c06Msg) {
 		for kind := 0; kind < 3; kind++ {
 			var grp []*c06Msg
-			for i, d := range descs {
-				if d.Signer == 0 && d.Height == 1 && d.Round == 0 && d.Kind == kind {
-					grp = append(grp, copy1[i])
+			for _, m := range msgs {
+				if m.d.Signer == 0 && m.d.Height == 1 && m.d.Round == 0 && m.d.Kind == kind {
+					grp = append(grp, m)
 				}
 			}
 			g := len(grp)
@@ -537,11 +702,19 @@ func TestVerifC06(t *testing.T) {
 			})
 		}
 	}
+	if complete {
+		runTriples(copy1)
+		runTriples(encMsgs)
+	}
 
 	cls := map[string]int64{}
 	classes.Range(func(k, v interface{}) bool { cls[k.(string)] = *(v.(*int64)); return true })
 	r.Set("pair_classes", cls)
 	r.Set("universes", universes)
+	var unsup []string
+	unsupported.Range(func(k, v interface{}) bool { unsup = append(unsup, k.(string)); return true })
+	sort.Strings(unsup)
+	r.Set("encodings_not_accepted_by_goloop", unsup)
 	_ = n
 	r.Set("dsmlog_triples", triples)
 	pts := []string{c06PConflict, c06PLog, c06PDirect, c06PParsed, c06PLog3}
@@ -560,7 +733,15 @@ func TestVerifC06(t *testing.T) {
 			keys = append(keys, k)
 		}
 		sort.Strings(keys)
-		r.Sanity(len(keys) == 7*len(universes), "expected genuine + 6 one-clause classes per universe, got %v", keys)
+		nBase := 0
+		for _, k := range keys {
+			if strings.HasPrefix(k, "base:") {
+				nBase++
+			}
+		}
+		r.Sanity(nBase == 7, "expected genuine + 6 one-clause classes in the base universe, got %v", keys)
+		r.Sanity(cls["encodings:only-identical-fails"] > int64(len(encMsgs)), "no cross-encoding pairs of one signed content (%d)", cls["encodings:only-identical-fails"])
+		r.Sanity(len(unsup) == 0, "wire forms not accepted by goloop any more: %v (the encoding universe is smaller than stated)", unsup)
 		for i := range pts {
 			r.Sanity(c.accepted[i] > 0 && c.rejected[i] > 0, "point %s accepted=%d rejected=%d", pts[i], c.accepted[i], c.rejected[i])
 		}
